@@ -95,7 +95,8 @@ def run_config(w, c, idx):
     lng, alias = c["long"], c["alias"]
     env = {}
     with cli.Sandbox(w.pid, "cfg") as sb:
-        prior = b"PRIOR CONTENT OF THE OUTPUT PATH\n" * 3
+        # longer than anything a successful command writes, so that a missing truncation shows
+        prior = b"PRIOR CONTENT OF THE OUTPUT PATH\n" * (3 if cause != "none" else 4000)
         out_path = sb.path("out.bin")
         # ---- input ----
         expected_full = None
@@ -297,6 +298,10 @@ def c12(pid, tier, seed, selftest=False):
                 sel.append(c)
         elif c["cmd"] != "decrypt" and c["prior"] == "absent" and c["cause"] in ("none", "wrong_password", "unset_password", "bad_args"):
             if thorough or (c["long"] == c["alias"]):
+                sel.append(c)
+        elif c["cause"] == "none" and c["prior"] == "present" and c["outp"] == "file":
+            # success onto a pre-existing (longer) output file: the result must be exactly the new output
+            if thorough or (c["long"] == c["alias"] and c["sender"] == "first" and c["kr"] == "opt"):
                 sel.append(c)
     w = World(pid, tpl, seed)
     for c in sel:
@@ -678,10 +683,14 @@ def c09(pid, tier, seed, selftest=False):
             lens = set(l for l in lens if l < 60 or l % (3 if thorough else 11) == 0) | {36, 37, 52, 98, 112}
         if k in ("mutate", "lenfield"):
             lens = set(range(0, 24 if not thorough else 64))
+        if k == "insert":
+            lens = set(range(0, 130, 1 if thorough else 3)) if s != "keyring" else set(range(0, 250, 2 if thorough else 7))
         if s == "keyring" and k == "lines":
             lens = set(range(0, 400 if thorough else 120))
         for n in sorted(lens):
-            ks = [0] if k not in ("prefix_then_random", "lenfield") else ([0, 1, 15, 16] if k == "prefix_then_random" else [0, 1])
+            ks = [0] if k not in ("prefix_then_random", "lenfield", "insert") else ([0, 1, 15, 16] if k == "prefix_then_random" else [0, 1])
+            if k == "insert":
+                ks = list(range(9)) if (thorough or s != "encoded_sk") else [0, 1, 2, 4]
             for kk in ks:
                 scen.append({"op": "fuzz", "surface": s, "kind": k, "n": n, "k": kk, "id": "%s.%s.%d.%d" % (s, k, n, kk)})
     if thorough:
@@ -717,12 +726,20 @@ def c09(pid, tier, seed, selftest=False):
                  % ((4, "VocabSmall") if thorough else (3, "VocabSmall")), workers=1, timeout=900)
     rep.add_model("argv", av, "argument vectors over the CLI vocabulary")
     vectors = [r["argv"] for r in av.replays]
+    # key commands given a valid locked key with one foreign character inside (C09: an encoded key is untrusted input)
+    wk = cli.make_keys(pid, tpl, seed, [("c9", b"pw9")])["c9"]["locked"]
+    for pos in (1, 20, 56, 111):
+        for ch in (" ", "\t", "=", "-", "\u00e9"):
+            bad = wk[:pos] + ch + wk[pos:]
+            vectors.append(["key", "extract-pub", bad, "--env-pass"])
+            vectors.append(["key", "change-pass", bad, "--env-pass"])
     with cli.Sandbox(pid, "argv") as sb:
         sb.write("x", b"not a kestrel file")
 
         def one(iv):
             i, v = iv
-            r = cli.kestrel(v, env={}, stdin=b"", timeout=30, cwd=sb.dir)
+            r = cli.kestrel(v, env={"KESTREL_PASSWORD": "pw9", "KESTREL_NEW_PASSWORD": "pw10"} if len(v) == 4 and v[0] == "key" and len(v[2]) > 100 else {},
+                            stdin=b"", timeout=30, cwd=sb.dir)
             return {"ev": "argv", "id": "a%d" % i, "argv": v, "exit": r.rc, "errline": r.has_error_line, "timed_out": r.timed_out,
                     "stderr": r.err_text[-200:]}
         with cf.ThreadPoolExecutor(max_workers=NCPU) as ex:
